@@ -463,3 +463,45 @@ def write_evidence(ctx):
 def short(v, n=600):
     s = json.dumps(v, separators=(",", ":"))
     return s if len(s) <= n else s[:n] + "..."
+
+
+# ---------------------------------------------------------------------------- generic pipeline
+def pipeline(ctx, mc, drive, trace, slim, facts=None, what=None, vec_filter=None, mc_kw=None, drive_timeout=3000,
+             trace_env=None, sharded=0):
+    """model (mc = (module, cfg)) -> vectors -> harness (drive = ['drive', prop, ...]; '--vectors', '--out' appended)
+    -> trace validation (trace = (module, cfg)) -> failure reporting.  Returns (model result, summary, record path, n, bad)."""
+    r = model_check(ctx, mc[0], mc[1], **(mc_kw or {"workers": 8, "timeout": 3000, "heap": "8g"}))
+    vecs = vec_filter(r.vec) if vec_filter else r.vec
+    vec = ctx.path("vectors.ndjson")
+    write_ndjson(vec, vecs)
+    ctx.cov["vectors_exported"] = len(r.vec)
+    ctx.cov["vectors_replayed"] = len(vecs)
+    rec = ctx.path("records.ndjson")
+    summ = agv_ok(ctx, list(drive) + ["--vectors", vec, "--out", rec], timeout=drive_timeout)
+    if sharded:
+        n, fails = validate_trace_sharded(ctx, trace[0], trace[1], rec, shards=sharded, extra_env=trace_env)
+    else:
+        n, fails = validate_trace(ctx, trace[0], trace[1], rec, timeout=3000, extra_env=trace_env)
+    bad = set()
+    for f in fails:
+        case = nth_line(rec, f["index"])
+        for reason in f["reasons"]:
+            fa = facts(case, reason) if facts else {"reason": reason if isinstance(reason, str) else reason[0]}
+            w = what(case, reason) if what else "%s: %s" % (case.get("id"), reason)
+            if report_failure(ctx, fa, {"record": slim(case), "reason": reason, "seed": ctx.seed, "tier": ctx.tier}, w):
+                bad.add(f["index"])
+    ctx.cov["traces_validated_against_impl"] = n - len(bad)
+    ctx.cov["evaluations"] = n
+    ctx.cov["records"] = summ
+    return r, summ, rec, n, bad
+
+
+def std_replay(run):
+    def replay(ctx, path):
+        case = json.load(open(path))
+        print(json.dumps(case, indent=1)[:4000])
+        ctx.seed = case["case"].get("seed", 0)
+        ctx.tier = case["case"].get("tier", "quick")
+        run(ctx)
+        return 1 if ctx.violations else 0
+    return replay
